@@ -106,6 +106,20 @@ impl Iterator for FlopExhaustiveEvaluatorIterator {
     type Item = Showdown;
 
     fn next(&mut self) -> Option<Showdown> {
+        // blocked deals are skipped in a loop rather than by recursion, so a long
+        // run of them (a narrow range beside wide ones) cannot exhaust the stack
+        loop {
+            if let Some(showdown) = self.deal()? {
+                return Some(showdown);
+            }
+        }
+    }
+}
+
+impl FlopExhaustiveEvaluatorIterator {
+    /// Deals the current position and advances to the next one. `None` once the
+    /// scope is exhausted, `Some(None)` when the deal was blocked.
+    fn deal(&mut self) -> Option<Option<Showdown>> {
         if self.current_turn_index >= self.turn_to && self.current_river_index >= self.river_to {
             return None;
         }
@@ -182,21 +196,21 @@ impl Iterator for FlopExhaustiveEvaluatorIterator {
                 self.current_player_indexes[i] = 0;
             }
 
-            return showdown.or_else(|| self.next());
+            return Some(showdown);
         }
 
         if self.current_river_index < 48 {
             self.current_river_index += 1;
             self.current_player_indexes.fill(0);
 
-            return showdown.or_else(|| self.next());
+            return Some(showdown);
         }
 
         self.current_turn_index += 1;
         self.current_river_index = self.current_turn_index + 1;
         self.current_player_indexes.fill(0);
 
-        showdown.or_else(|| self.next())
+        Some(showdown)
     }
 }
 
